@@ -1937,7 +1937,12 @@ impl<T: PPGEvaluatorStrategy> PPGEvaluator<T> {
                         invalidated = true;
                     }
                     Some(my_historical_input) => {
-                        if upstream_historical_output != my_historical_input {
+                        if strategy.is_history_altered(
+                            &jobs[upstream_idx].job_id,
+                            &jobs[node_idx].job_id,
+                            my_historical_input,
+                            upstream_historical_output,
+                        ) {
                             debug!("edge invalidated by epheremeral changed in prev run: History for {}->{} changed",
                                    &jobs[upstream_idx].job_id,
                                    &jobs[node_idx].job_id);
